@@ -449,16 +449,24 @@ func assumptionsFor(stubs map[string]bool) []string {
 	as := []string{
 		"go/ssa (x/tools v0.29.0) and the Go compiler agree on the semantics of the encoded functions",
 		"the engine's SSA semantics (values, slices with aliasing, maps as association lists, interfaces, defer) are faithful; append may reallocate with any capacity >= needed length",
-		"one goroutine is executed; `go` statements are recorded, not interleaved",
+		"goroutines are cooperative threads of one symbolic state: a `go` statement is recorded and started by the harness (or when everything else is blocked); a thread runs until it finishes or blocks (channel operation, mutex held by another thread, harness-controlled fake); there is no pre-emption between two non-blocking instructions, so only the interleavings a harness scripts are explored",
 	}
 	for s := range stubs {
 		switch {
 		case strings.HasPrefix(s, "time.") || strings.Contains(s, "time.Timer") || strings.Contains(s, "time.Time"):
 			as = append(as, "timer contract: time.AfterFunc(d,f)/Reset(d) arm for exactly d from the (symbolic, non-decreasing) clock; callbacks are fired explicitly by the harness")
+		case strings.Contains(s, "sync.Map"):
+			as = append(as, "sync.Map is an association list with interface keys (Load/Store/LoadOrStore/Delete)")
 		case strings.Contains(s, "sync."):
-			as = append(as, "mutexes are per-object hold counters (sequential lock discipline, no interleavings)")
+			as = append(as, "mutexes are hold counters per object and goroutine: Lock of a mutex held by another goroutine waits, by the same goroutine is a deadlock obligation; lock balance is checked at the end of every path")
 		case strings.Contains(s, "newHMAC") || strings.Contains(s, "FingerprintValue"):
 			as = append(as, "HMAC/CRC values are unconstrained bytes (no cryptographic reasoning)")
+		case strings.Contains(s, "io.Copy"):
+			as = append(as, "io.Copy/io.CopyBuffer: the real loop of package io is executed over harness fakes")
+		case strings.Contains(s, "AddrPort") || strings.Contains(s, "netip."):
+			as = append(as, "netip: AddrFromSlice/AddrPort build the real representation (4-byte and IPv4-mapped forms differ); zones are empty")
+		case strings.Contains(s, "reflect.TypeOf"):
+			as = append(as, "reflect.TypeOf yields one value per dynamic Go type; Type.Comparable follows go/types")
 		case strings.Contains(s, "net.IP).String") || strings.Contains(s, "Addr).String"):
 			as = append(as, "net.IP.String / Addr.String are injective on canonical 16-byte forms (IPv4 and IPv4-mapped coincide); zones are empty")
 		case strings.Contains(s, "fmt."):
